@@ -2,7 +2,8 @@
 quick check against it (FSIM_REPO_SRC).  usage: tools/sensitivity.py [--validate] [--runs N] [PROP ...]
 Writes /verif/mutants/RESULTS.json (mutant -> caught / survived, signatures)."""
 import json, os, re, shutil, subprocess, sys, tempfile
-sys.path.insert(0, "/verif")
+VERIF = os.path.dirname(os.path.dirname(os.path.abspath(__file__)))
+sys.path.insert(0, VERIF)
 from mutants.catalogue import CATALOGUE
 
 def main():
@@ -12,7 +13,7 @@ def main():
     if "--runs" in args:
         runs = args[args.index("--runs") + 1]
     props = [a for a in args if re.fullmatch(r"C\d\d", a)]
-    res_path = "/verif/mutants/RESULTS.json"
+    res_path = args[args.index("--out") + 1] if "--out" in args else os.path.join(VERIF, "mutants/RESULTS.json")
     results = json.load(open(res_path)) if os.path.exists(res_path) else {}
     bad = 0
     for ent in CATALOGUE:
@@ -32,9 +33,10 @@ def main():
             shutil.copytree("/repo/src", os.path.join(scratch, "src"))
             p = os.path.join(scratch, "src/flexstack", rel)
             open(p, "w").write(src.replace(old, new))
-            env = dict(os.environ, FSIM_REPO_SRC=os.path.join(scratch, "src"), FSIM_SKIP_FRESH="1")
+            env = dict(os.environ, FSIM_REPO_SRC=os.path.join(scratch, "src"), FSIM_SKIP_FRESH="1",
+                       FSIM_OUT_DIR=os.path.join(scratch, "out"))
             cmd = ["./run", prop, "--tier", "quick"] + (["--runs", runs] if runs else [])
-            out = subprocess.run(cmd, cwd="/verif", env=env, capture_output=True, text=True, timeout=3600)
+            out = subprocess.run(cmd, cwd=VERIF, env=env, capture_output=True, text=True, timeout=3600)
             sigs = sorted(set(re.findall(r"^VIOLATION property=\S+ replay=\S+ rule=(\S+) key=(\S+)", out.stdout, re.M)))
             status = "caught" if out.returncode == 1 and sigs else ("harness-error" if out.returncode == 2 else "survived")
             results[f"{prop}/{name}"] = {"status": status, "exit": out.returncode, "signatures": [f"{r} {k}" for r, k in sigs][:12], "file": rel}
@@ -43,8 +45,6 @@ def main():
                 print(out.stdout[-1500:])
         finally:
             shutil.rmtree(scratch, ignore_errors=True)
-            for f in os.listdir("/verif/replays"):
-                pass
         json.dump(results, open(res_path, "w"), indent=1, sort_keys=True)
     return 1 if bad else 0
 
